@@ -111,6 +111,7 @@ type Frame struct {
 	namedAddr map[string]Val
 	namedDefs map[string][]namedDef
 	curBlock  *ssa.BasicBlock
+	flowHook  func(from, to *ssa.BasicBlock, st *State) bool
 	parent    *Frame
 }
 
@@ -755,12 +756,23 @@ func (x *Exec) execBody(fr *Frame, entry *State) {
 	in := map[*ssa.BasicBlock][]edgeState{}
 	in[fn.Blocks[0]] = []edgeState{{entry, nil}}
 
+	done := map[*ssa.BasicBlock]bool{}
 	for _, b := range order {
+		if done[b] {
+			continue
+		}
 		edges := in[b]
 		var st *State
 		li := loops[b]
 		fr.curBlock = b
 		if li != nil {
+			if n, ok := x.canUnroll(fr, li, loops, edges); ok {
+				x.unrollLoop(fr, li, n, edges, in, loops, order)
+				for bb := range li.body {
+					done[bb] = true
+				}
+				continue
+			}
 			st = x.enterLoop(fr, b, li, edges)
 		} else {
 			var ss []*State
@@ -1141,6 +1153,9 @@ func (x *Exec) execBlock(fr *Frame, b *ssa.BasicBlock, st *State, in map[*ssa.Ba
 }
 
 func (x *Exec) flow(fr *Frame, from, to *ssa.BasicBlock, st *State, in map[*ssa.BasicBlock][]edgeState, loops map[*ssa.BasicBlock]*loopInfo) {
+	if fr.flowHook != nil && fr.flowHook(from, to, st) {
+		return
+	}
 	if li := loops[to]; li != nil {
 		for _, bb := range li.back {
 			if bb == from {
@@ -1268,4 +1283,97 @@ func rangeIndexPattern(h *ssa.BasicBlock, li *loopInfo) (*ssa.Phi, ssa.Value) {
 		}
 	}
 	return nil, nil
+}
+
+// canUnroll: a `for i := range s` loop over a slice whose length is a small
+// literal, without user invariants and without nested loops, is unrolled
+// instead of being cut at an invariant.
+func (x *Exec) canUnroll(fr *Frame, li *loopInfo, loops map[*ssa.BasicBlock]*loopInfo, edges []edgeState) (int, bool) {
+	if len(x.loopInvariants(fr, li)) > 0 || fr.flowHook != nil {
+		return 0, false
+	}
+	for h := range loops {
+		if h != li.header && li.body[h] {
+			return 0, false
+		}
+	}
+	phi, bound := rangeIndexPattern(li.header, li)
+	if phi == nil {
+		return 0, false
+	}
+	var bv Val
+	if c, ok := bound.(*ssa.Const); ok {
+		bv = x.constVal(c)
+	} else if v, ok := fr.vals[bound]; ok {
+		bv = v
+	} else {
+		return 0, false
+	}
+	n, ok := bvValue(bv.L[0])
+	if !ok || n > 16 {
+		return 0, false
+	}
+	return int(n), true
+}
+
+func (x *Exec) unrollLoop(fr *Frame, li *loopInfo, n int, edges []edgeState, in map[*ssa.BasicBlock][]edgeState, loops map[*ssa.BasicBlock]*loopInfo, order []*ssa.BasicBlock) {
+	var bodyOrder []*ssa.BasicBlock
+	for _, b := range order {
+		if li.body[b] {
+			bodyOrder = append(bodyOrder, b)
+		}
+	}
+	isBackPred := map[*ssa.BasicBlock]bool{}
+	for _, b := range li.back {
+		isBackPred[b] = true
+	}
+	var headerIn []edgeState
+	for _, e := range edges {
+		if !isBackPred[e.from] {
+			headerIn = append(headerIn, e)
+		}
+	}
+	for iter := 0; iter <= n; iter++ {
+		localIn := map[*ssa.BasicBlock][]edgeState{li.header: headerIn}
+		var nextBack []edgeState
+		fr.flowHook = func(from, to *ssa.BasicBlock, st *State) bool {
+			switch {
+			case to == li.header && isBackPred[from]:
+				nextBack = append(nextBack, edgeState{st, from})
+			case li.body[to]:
+				localIn[to] = append(localIn[to], edgeState{st, from})
+			default:
+				in[to] = append(in[to], edgeState{st, from})
+			}
+			return true
+		}
+		for _, b := range bodyOrder {
+			es := localIn[b]
+			if len(es) == 0 {
+				continue
+			}
+			fr.curBlock = b
+			var ss []*State
+			for _, e := range es {
+				ss = append(ss, e.st)
+			}
+			st := x.mergeStates(ss)
+			for _, instr := range b.Instrs {
+				phi, ok := instr.(*ssa.Phi)
+				if !ok {
+					break
+				}
+				fr.vals[phi] = x.mergePhi(fr, phi, es, b)
+			}
+			if st.dead {
+				continue
+			}
+			x.execBlock(fr, b, st, in, loops)
+		}
+		fr.flowHook = nil
+		headerIn = nextBack
+		if len(headerIn) == 0 {
+			break
+		}
+	}
 }
